@@ -29,7 +29,13 @@ def parseArr (s : String) : Option FArr :=
       | "I" => (allSome (items.map String.toInt?)).map fun xs => { name := name, t := .inte, ints := xs }
       | "L" => some { name := name, t := .logi, bools := (if payload = "-" then [] else payload.toList).map (· = 'T') }
       | "C" => (allSome (items.map hexChars)).map fun xs => { name := name, t := .char, strs := xs }
-      | _ => none
+      | _ =>
+        -- `S<esz>`: strings longer than eight characters, written as C0nn
+        if k.startsWith "S" then
+          match (k.drop 1).toNat? with
+          | some esz => (allSome (items.map hexChars)).map fun xs => { name := name, t := .c0nn esz, strs := xs }
+          | none => none
+        else none
   | _ => none
 
 def parseStep (s : String) : Option (Nat × List FArr) :=
